@@ -23,7 +23,7 @@ ASSUMPTIONS = [
     "rule patterns are read through the regex-level reference R1 (vf/ref/rulelang.py); the implicit rule texts themselves are taken from annet.implicit._implicit_tree (data)",
     "reference completion adds, with a default block, the defaults nested in it (what idempotence requires)",
 ]
-FLOORS = {"quick": {"completions": 2000, "defaults_added": 2000, "defaults_suppressed": 1000, "patches_checked": 1500, "front_runs": 150, "front_safe_runs": 150, "front_runs_clear_mode": 150, "block_lines_added": 4000, "pairs_with_vrf_change_on_an_interface": 300, "ports_in_a_port_channel_on_both_sides": 500, "touch_patches_checked": 2500, "front_runs_with_defaults_covered_through_the_negated_form_of_a_rule": 150, "completed_trees_compared_after_the_diff": 1500},
+FLOORS = {"quick": {"completions": 2000, "defaults_added": 2000, "defaults_suppressed": 1000, "patches_checked": 1500, "front_runs": 150, "front_safe_runs": 150, "front_runs_clear_mode": 150, "block_lines_added": 4000, "pairs_with_vrf_change_on_an_interface": 300, "ports_in_a_port_channel_on_both_sides": 500, "touch_patches_checked": 2500, "front_runs_with_defaults_covered_through_the_negated_form_of_a_rule": 150, "completed_trees_compared_after_the_diff": 1500, "completions_searched_for_comment_lines": 2000},
           "thorough": {"completions": 100000, "defaults_added": 100000, "defaults_suppressed": 50000, "patches_checked": 70000, "front_runs": 7000, "front_safe_runs": 7000, "front_runs_clear_mode": 7000, "block_lines_added": 80000, "pairs_with_vrf_change_on_an_interface": 6000}}
 MODELS = [("Huawei CE6870", ()), ("Huawei NE40E-X8", ()), ("Huawei Quidway S5300", ()), ("Arista DCS-7050", ()),
           ("Cisco Nexus 3132", ()), ("Cisco Nexus 3432", ()), ("Cisco Nexus 9316", ()), ("Cisco Nexus N9K-C9364", ()), ("Cisco Nexus 9504", ("spine1",)),
@@ -225,6 +225,18 @@ def check_case(seed, acc, blk=False):
     acc.case([model, list(tags), t], nontrivial=(a >= 1 and s >= 1))
     if not is_subtree(t, m):
         acc.violation("C17/explicit-line-lost", "completing a configuration with implicit defaults dropped or moved an explicit line", dict(w, completed=m))
+        return w
+    # what the completion adds are lines of configuration: a comment line of the table of defaults (`# SVI`, `! ...`) is not one
+    def comment_rows(tree, explicit, path=()):
+        em = {r_: c_ for r_, c_ in explicit}
+        for r_, c_ in tree:
+            if r_ not in em and r_.lstrip().startswith(("#", "!")):
+                yield path + (r_,)
+            yield from comment_rows(c_, em.get(r_, []), path + (r_,))
+    acc.count("completions_searched_for_comment_lines")
+    cr = list(comment_rows(m, t))
+    if cr:
+        acc.violation("C17/completion-adds-a-comment-line", "completing a configuration added a row that is a comment line of the table of defaults", dict(w, added=[list(x) for x in cr][:5]))
         return w
     exp = merge(t, ref_implicit(t, rules))
     if sorted_tree(m) != sorted_tree(exp):
